@@ -159,8 +159,21 @@ def queries(h, cfg):
 
 
 def check(cfg, out, stats):
+    h = maker(cfg)()
+    exp_depth = cfg["size"] * cfg["gran"] // cfg["dw"]
+    if h.md.depth != exp_depth:
+        from ..bmc import mark_violation
+        from ..e1 import cfg_key
+        mark_violation("memory-geometry")
+        out.violations.append({"key": f"memory-geometry@{cfg_key(cfg)}",
+                               "what": f"C15 the SRAM's memory array has {h.md.depth} rows, its geometry promises {exp_depth} "
+                                       f"({cfg_key(cfg)})", "query": "geometry", "cfg": cfg, "stimulus": [], "prefix": 0,
+                               "k": 0, "detail": {}})
+        return
     run_queries(__import__(__name__, fromlist=["x"]), cfg, out, stats, cosim_cycles=24)
 
 
 def replay(v):
+    if v["query"] == "geometry":
+        return maker(v["cfg"])().md.depth != v["cfg"]["size"] * v["cfg"]["gran"] // v["cfg"]["dw"]
     return _replay(__import__(__name__, fromlist=["x"]), v)
